@@ -10,12 +10,18 @@ producing helpers.  The included obligations are recorded as <property>.<rule of
 CORE = ["C02", "C03", "C05", "C09", "C10"]
 
 INCLUDES = {
-    "C01": ["C02", "C03", "C05", "C10", "C11", "C12", "C13", "C14"],      # C09 is already part of C01 (CALLCONV)
-    "C02": ["C05", "C10", "C11"],  # a failing flush / a cancelled batch reaches the awaiting tasks through the batch lifecycle
+    # C09 is already part of C01 (CALLCONV); what a body reads from a scoped value is part of what it returns (C06, C07)
+    "C01": ["C02", "C03", "C05", "C06", "C07", "C10", "C11", "C12", "C13", "C14"],
+    # a failing flush / a cancelled batch reaches the awaiting tasks through the batch lifecycle; "delivered after every sibling
+    # finished" presupposes that the task is resumed only when all it awaits is done (C03)
+    "C02": ["C03", "C05", "C10", "C11"],
     "C03": ["C05", "C11"],         # termination: every item of a flushed batch is answered, a batch is flushed once
     "C04": ["C03", "C09", "C14"],  # helpers that issue their per-element requests in several rounds break "all requests travel in one flush"
     "C07": ["C06"],                # nesting of activation periods presupposes that each context is active exactly while its task runs
-    "C05": ["C11"],                # a batch is flushed once: its lifecycle (switch before flush, cancel, items) is C11's subject
+    # a batch is flushed once: its lifecycle (switch before flush, cancel, items) is C11's subject; a task resumed before what it
+    # awaits is done asks its items for their values and flushes their batch out of turn (C03)
+    "C05": ["C03", "C11"],
+    "C06": ["C08"],                # a context is registered with the active task: "active task is the running one" comes first
     "C08": ["C05", "C09"],
     "C09": ["C12", "C13"],         # C09 quantifies over deduplicate, alru_cache and acached_per_instance as well
     "C10": ["C11"],                # batches and batch items are futures too
